@@ -18,7 +18,7 @@ EXPLANATION = (
     "live configuration (alias/mutation analysis). R5 registry (informational). "
     "Not decided: behaviour of the callable returned by get_func beyond the binding of its keywords.")
 RULE_TEXT = "one obligation per table entry / key route / accessor arity / YAML route; distinct = distinct keys"
-FLOORS = {'C18.R1': 12, 'C18.R2': 9, 'C18.R3': 4, 'C18.R4': 1}
+FLOORS = {'C18.R1': 12, 'C18.R2': 9, 'C18.R3': 4, 'C18.R4': 1, 'C18.R6': 3}
 PINNED_EXPECT = [('C18.R3', 'emd.sift.SiftConfig.from_yaml_stream', 'text route'),
                  ('C18.R4', 'emd.sift.SiftConfig._get_yamlsafe_dict', 'live store')]
 
@@ -34,6 +34,7 @@ def run(ctx):
     rule_yaml_pairing(ctx, 'C18.R3')
     rule_export_purity(ctx, 'C18.R4')
     rule_registry(ctx, 'C18.R5')
+    rule_yaml_safe(ctx, 'C18.R6')
 
 
 # ----------------------------------------------------------------------------------------------
@@ -599,3 +600,42 @@ def rule_registry(ctx, rid):
                 if 'emd.sift.' + name not in P.funcs:
                     ctx.note(rid, gc, 'registry name %s resolves' % name,
                              "get_config('%s') passes the registry test and then raises AttributeError" % name, node=n)
+
+
+def rule_yaml_safe(ctx, rid):
+    """Conversion table of the YAML-safe export: ndarray -> .tolist() (plain python scalars all the way down),
+    tuple -> list, dict -> recursive conversion, anything else unchanged.  list(ndarray) keeps numpy scalars, which
+    yaml.dump writes as python-object tags that FullLoader refuses to read back."""
+    P = ctx.P
+    fi = P.func('emd.sift._array_or_tuple_to_list')
+    table = {}
+    for n in walk_local(fi.node):
+        if isinstance(n, ast.If):
+            t = n.test
+            if isinstance(t, ast.Call) and isinstance(t.func, ast.Name) and t.func.id == 'isinstance' and len(t.args) == 2:
+                types = t.args[1].elts if isinstance(t.args[1], ast.Tuple) else [t.args[1]]
+                conv = None
+                for st in n.body:
+                    if isinstance(st, ast.Assign):
+                        conv = st.value
+                for ty in types:
+                    d = P.resolve(fi.module, ty, fi) or unparse(ty)
+                    table[d] = conv
+    want = {'numpy.ndarray': lambda v: isinstance(v, ast.Call) and isinstance(v.func, ast.Attribute) and v.func.attr == 'tolist',
+            'builtins.tuple': lambda v: isinstance(v, ast.Call) and unparse(v.func) in ('list',) or (
+                isinstance(v, ast.Call) and isinstance(v.func, ast.Attribute) and v.func.attr == 'tolist'),
+            'builtins.dict': lambda v: isinstance(v, ast.Call) and unparse(v.func) == fi.name}
+    names = {'numpy.ndarray': 'arrays are converted with .tolist()', 'builtins.tuple': 'tuples become lists',
+             'builtins.dict': 'nested dicts are converted recursively'}
+    for ty, ok in want.items():
+        c = 'YAML-safe export: ' + names[ty]
+        conv = table.get(ty)
+        if conv is None:
+            ctx.violation(rid, fi, c, 'no conversion for %s: such option values cannot be written / read back' % ty)
+        elif ok(conv):
+            ctx.passed(rid, fi, c, unparse(conv))
+        else:
+            ctx.violation(rid, fi, c, '%s values are converted by `%s`%s' % (
+                ty, unparse(conv), ': numpy scalars survive and the YAML cannot be loaded again'
+                if ty == 'numpy.ndarray' else ''), expected='val.tolist()' if ty == 'numpy.ndarray' else None,
+                found=unparse(conv))
